@@ -411,15 +411,30 @@ def _lazy_case(args):
     masks = np.array([base[i % len(base)] if i % 7 else
                       np.roll(base[i % len(base)], 1, axis=1)
                       for i in range(n)])
-    direct = [get_contour(m) for m in masks]
+    # two events without a contour (empty mask, single pixel): accessing
+    # them fails, the others must be unaffected by that
+    masks[10] = False
+    masks[700] = False
+    masks[700, 3, 3] = True
+    direct = []
+    for m in masks:
+        try:
+            direct.append(get_contour(m))
+        except BaseException:
+            direct.append(None)
     lcl = get_contour_lazily(masks)
-    order = list(range(n)) + [0, 5, 999, 1000, 1299, 3] + list(
+    order = list(range(20)) + [11, 12, 11, 9, 10, 12] + list(range(
+        20, n)) + [0, 5, 999, 1000, 1299, 3, 701, 699] + list(
         range(n - 1, -1, -1)) + list(range(0, n, 97))
     cnt = 0
     for pos, i in enumerate(order):
         cnt += 1
-        got = lcl[i]
-        if not np.array_equal(got, direct[i]):
+        try:
+            got = lcl[i]
+        except BaseException:
+            got = None
+        if (got is None) != (direct[i] is None) or (
+                got is not None and not np.array_equal(got, direct[i])):
             out.append(violation(
                 "dclab.features.contour:LazyContourList", "wrong-contour",
                 {"kind": "lazy"},
